@@ -747,6 +747,7 @@ func runC15(c *Check) {
 	c.MinInstances("C15-R8", 1)
 	ruleNoBatchUseAfterCommit(c, p, "C15-R9", kvPkg)
 	ruleExecuteTakesBlockAsGiven(c, p, "C15-R10", exec)
+	ruleOnDiskStoreOptionsDefault(c, c.Mod(ModRoot), "C15-R11")
 	c.MinInstances("C15-R9", 2)
 	c.MinInstances("C15-R5", 1)
 	ruleFinalisationRepeatable(c, "C15-R6")
